@@ -1456,3 +1456,159 @@ def np_arange(engine, run, a, k):
     n = ops.binop(run, ast.Sub(), hi, lo)
     run.assume(z3.And(idx >= 0, idx < to_z3(n)))
     return SCell(to_z3(lo) + idx, f"arange!{next(run.counter)}", kind="int")
+
+
+# ---------------------------------------------------------------------------
+# symbolic lists / matrices (pyvc.heap)
+from . import heap as _heap   # noqa: E402
+
+_old_getitem2 = getitem
+
+
+def getitem(engine, run, obj, idx):   # noqa: F811
+    if isinstance(obj, _heap.SListObj):
+        m = obj.cls.lookup("__getitem__") if obj.cls is not None else None
+        if m is not None:
+            return engine.call_function(run, m, [obj, idx], {}, self_cls=m.cls)
+        return obj.raw_getitem(run, idx)
+    return _old_getitem2(engine, run, obj, idx)
+
+
+_old_native_attr2 = native_attr
+
+
+def native_attr(engine, run, obj, attr):   # noqa: F811
+    if isinstance(obj, _heap.SListObj):
+        if attr in ("append", "pop", "__getitem__", "__init__"):
+            return _heap.list_method(obj, run, attr)
+        if attr == "__class__":
+            return SClassRef(obj.cls) if obj.cls else BUILTINS["list"]
+    if isinstance(obj, SNative) and obj.name == "list":
+        if attr == "__getitem__":
+            return SNative(lambda run, a, k: a[0].raw_getitem(run, a[1]) if isinstance(a[0], _heap.SListObj)
+                           else _old_getitem2(engine, run, a[0], a[1]), "list.__getitem__")
+        if attr == "__add__":
+            def _add(run, a, k):
+                x, y = a
+                if isinstance(x, list) and isinstance(y, list):
+                    return x + y
+                if hasattr(x, "sym_concat"):
+                    return x.sym_concat(run, y)
+                raise Undecided("list.__add__ on symbolic lists")
+            return SNative(_add, "list.__add__")
+    return _old_native_attr2(engine, run, obj, attr)
+
+
+_old_isinstance_one = isinstance_one
+
+
+def isinstance_one(run, v, t):   # noqa: F811
+    if isinstance(v, _heap.SListObj):
+        if isinstance(t, SClassRef):
+            return v.cls is not None and v.cls.is_subclass_of(t.cls.name)
+        if isinstance(t, SNative) and t.name == "list":
+            return True
+        return False
+    if isinstance(v, _heap.SMat):
+        return isinstance(t, SExternal) and t.name == "numpy.ndarray"
+    return _old_isinstance_one(run, v, t)
+
+
+def _mat_dims(run, shp):
+    if isinstance(shp, tuple) and len(shp) == 2:
+        return shp
+    return None
+
+
+_old_np_zeros = EXTERNALS["numpy.zeros"]
+
+
+@external("numpy.zeros")
+def np_zeros2(engine, run, a, k):
+    d = _mat_dims(run, a[0])
+    if d is not None:
+        return _heap.SMat(d[0], d[1], lambda i, j: z3.RealVal(0), "zeros")
+    return _old_np_zeros(engine, run, a, k)
+
+
+@external("numpy.fill_diagonal")
+def np_fill_diagonal(engine, run, a, k):
+    m, v = a
+    if not isinstance(m, _heap.SMat):
+        raise Undecided("fill_diagonal")
+    old = m.at
+    val = _heap.mat_val(v)
+    m.at = lambda i, j: z3.If(i == j, val, old(i, j))
+
+
+class SFlatIndex:
+    """result of np.argmin(matrix): a flat index of a minimal entry"""
+
+    def __init__(self, mat, kind="argmin"):
+        self.mat = mat
+        self.kind = kind
+
+
+@external("numpy.argmin")
+def np_argmin(engine, run, a, k):
+    m = a[0]
+    if isinstance(m, _heap.SMat):
+        return SFlatIndex(m, "argmin")
+    if hasattr(m, "sym_argmin"):
+        return m.sym_argmin(run)
+    raise Undecided("argmin")
+
+
+@external("numpy.unravel_index")
+def np_unravel_index(engine, run, a, k):
+    """Assumed (numpy): unravel_index(argmin(M), M.shape) is a position (x, y) of a minimal entry of M.
+    Requires a non-empty matrix (ValueError otherwise)."""
+    fi, shp = a
+    if not isinstance(fi, SFlatIndex):
+        raise Undecided("unravel_index of a non-argmin index")
+    m = fi.mat
+    rows, cols = to_z3(m.rows), to_z3(m.cols)
+    run.oblige("argmin of a non-empty array", z3.And(rows > 0, cols > 0), kind="implicit")
+    x, y = run.fresh_int("amin_x"), run.fresh_int("amin_y")
+    kk, ll = z3.Ints("kk ll")
+    run.assume(z3.And(x >= 0, x < rows, y >= 0, y < cols))
+    run.assume(z3.ForAll([kk, ll], z3.Implies(z3.And(kk >= 0, kk < rows, ll >= 0, ll < cols), m.at(x, y) <= m.at(kk, ll))))
+    run.trust("numpy: unravel_index(argmin(M), M.shape) is the position of a minimal entry")
+    return (x, y)
+
+
+@external("numpy.delete")
+def np_delete(engine, run, a, k):
+    m, idx, axis = a[0], a[1], (a[2] if len(a) > 2 else k.get("axis"))
+    if not isinstance(m, _heap.SMat):
+        raise Undecided("np.delete on a non-matrix")
+    p = to_z3(idx)
+    ax = const_of(axis)
+    old = m.at
+    run.trust("numpy: np.delete(M, p, axis) drops row/column p and shifts the later ones")
+    if ax == 0:
+        run.oblige("np.delete: index in range", z3.And(p >= 0, p < to_z3(m.rows)), kind="implicit")
+        return _heap.SMat(to_z3(m.rows) - 1, m.cols, lambda i, j: old(z3.If(i < p, i, i + 1), j), m.name)
+    if ax == 1:
+        run.oblige("np.delete: index in range", z3.And(p >= 0, p < to_z3(m.cols)), kind="implicit")
+        return _heap.SMat(m.rows, to_z3(m.cols) - 1, lambda i, j: old(i, z3.If(j < p, j, j + 1)), m.name)
+    raise Undecided("np.delete axis")
+
+
+_old_isinf = EXTERNALS["numpy.isinf"]
+
+
+@external("numpy.isinf", "math.isinf")
+def np_isinf2(engine, run, a, k):
+    v = a[0]
+    if is_z3(v) and z3.is_real(v):
+        # a matrix entry: infinite iff it is the INF constant (entries are finite reals or +-INF by construction)
+        return z3.Or(v == _heap.INF(), v == -_heap.INF())
+    return _old_isinf(engine, run, a, k)
+
+
+@external("functools.partial")
+def functools_partial(engine, run, a, k):
+    f = a[0]
+    pre_a, pre_k = list(a[1:]), dict(k)
+    return SNative(lambda run2, a2, k2: engine.invoke(run2, f, pre_a + list(a2), {**pre_k, **k2}), "partial")
